@@ -10,10 +10,11 @@ from .. import stubs
 MAX_LENGTH = 256
 BOUNDS = {'strings': 'abstract: (allocation, offset, length) with arbitrary 64-bit lengths; the grammar is a contract stub', 'corpus': 'the rejected strings below are replayed natively on every run'}
 OUTSIDE = ['which string triggers which error (decided inside winnow: not encodable)', 'location() (line/column), miette rendering, char-boundary of the offset (spot-checked natively on the corpus only)']
-ASSUMPTIONS = ['winnow stream discipline: when `grammar.parse_next(&mut input)` fails, `input` is a suffix of the original slice and the error carries a suffix of the original at or after it',
+ASSUMPTIONS = ['the helper last_char_offset(&str) returns the start of the last character (contract stub; str::char_indices is std code over bytes, checked natively on the corpus)',
+               'winnow stream discipline: when `grammar.parse_next(&mut input)` fails, `input` is a suffix of the original slice and the error carries a suffix of the original at or after it',
                'winnow never returns ErrMode::Incomplete for a complete (&str) stream',
                'a String is identified with the slice it was copied from (same allocation, offset, length)']
-CORPUS_V = ['1.2.900719925474100', '1.2.', 'foo', '1.2.3.4.5.6' * 0 + '1.', '', 'v', '1.2.x', ' 1.2.99999999999999999999999', 'é1.2.3', '1.2.3\n4.x', '1' * 300, 'a' * 257, '1.2.3-é']
+CORPUS_V = ['1.2.900719925474100', '1.2.', 'foo', '1.2.3.4.5.6' * 0 + '1.', '', 'v', '1.2.x', ' 1.2.99999999999999999999999', 'é1.2.3', '1.2.3\n4.x', '1' * 300, 'a' * 257, '1.2.3-é', '1.2.3-' + 'a' * 255 + 'é', '1.0.0-' + 'a' * 260 + '\nb']
 CORPUS_R = ['foo', '', '>=1.2.3 <1.0.0', 'é', '~1.y', '>', '1.2.900719925474100', '^1.2.99999999999999999999999', 'foo || bar', '1' * 300]
 
 
@@ -50,6 +51,18 @@ def install_grammar_stub(h, which):
         log['res'], log['adv'], log['orig'] = res, adv, orig
         return res
     e.stubs.append((re.compile(r'^<for<.*\{(version|range_set)\} as Parser<.*>>::parse_next$', re.S), grammar))
+
+    def last_char(eng, callee, args, dest_ts, st, where):
+        # contract of the crate's helper `last_char_offset(&str)` (str::char_indices is not encoded): the byte offset at
+        # which the last character starts: 0 for the empty string, otherwise in [len-4, len-1]; checked natively on the corpus
+        sl = args[0] if not isinstance(args[0], Ref) else eng.read_ref(st, args[0])
+        k = z3.BitVec('last_char_offset!%d' % len(h.wf), 64)
+        ln = sl.fs[2].t
+        c = [z3.If(ln == 0, k == 0, AND(z3.ULT(k, ln), z3.UGE(k + 4, ln)))]
+        eng.assume(c)
+        h.wf += c
+        return Sc(k)
+    e.stubs.append((re.compile(r'^last_char_offset$'), last_char))
     return log
 
 
@@ -102,8 +115,8 @@ def parse_group(s, which):
                 z3.Implies(is_variant(gerr, 'Backtrack'), espan.fs[0].t == pe('Backtrack', 'input').fs[1].t - inp.fs[1].t),
                 z3.Implies(is_variant(gerr, 'Cut'), espan.fs[0].t == pe('Cut', 'input').fs[1].t - inp.fs[1].t)), decode=dec, replay=replay)
     if which == 'Version':
-        s.prove(h, 'Version::parse: longer than MAX_LENGTH => MaxLengthError at offset len-1, grammar not consulted', [too_long],
-                AND(iserr, is_variant(ekind, 'MaxLengthError'), espan.fs[0].t == inp.fs[2].t - 1), decode=dec, replay=replay)
+        s.prove(h, 'Version::parse: longer than MAX_LENGTH => MaxLengthError positioned at the last character (within its 4 bytes), grammar not consulted', [too_long],
+                AND(iserr, is_variant(ekind, 'MaxLengthError'), z3.ULT(espan.fs[0].t, inp.fs[2].t), z3.UGE(espan.fs[0].t + 4, inp.fs[2].t)), decode=dec, replay=replay)
     for vn in ('Backtrack', 'Cut'):
         k, c = pe(vn, 'kind'), pe(vn, 'context')
         want = AND(z3.Implies(is_variant(k, 'Some'), AND(ekind.tag == payload(k, 'Some')[0].tag,
